@@ -302,7 +302,7 @@ class LinearLeastSquares(App):
         if self.lamda != 0:
             AHA += self.lamda * linop.Identity(self.x.shape)
             if self.z is not None:
-                util.axpy(AHy, self.lamda, self.z)
+                AHy = AHy + self.lamda * self.z
 
         self.alg = ConjugateGradient(
             AHA, AHy, self.x, P=self.P, max_iter=self.max_iter, tol=self.tol
@@ -445,12 +445,12 @@ class LinearLeastSquares(App):
         def minL_x():
             AHy = self.A.H * self.y
             if self.G is None:
-                AHy += self.rho * (v - u)
+                AHy = AHy + self.rho * (v - u)
             else:
-                AHy += self.rho * self.G.H(v - u)
+                AHy = AHy + self.rho * self.G.H(v - u)
 
             if self.z is not None:
-                AHy += self.lamda * self.z
+                AHy = AHy + self.lamda * self.z
 
             AHA = self.A.N
             Id = linop.Identity(self.x.shape)
